@@ -142,6 +142,8 @@ def run(ctx):
         if tm[0] == "ref":
             n = tm[1]
             if n in BOOL_FIELDS:
+                if n in be.region.preds:
+                    return bool(be.region.preds[n])        # this region has already decided the flag
                 return Pred(n)
             return LinV({n: 1})
         if tm[0] == "sub" and strip(tm[1]) == ("param", pay_p) and is_const(tm[2]) and isinstance(tm[2][1], int):
